@@ -38,6 +38,12 @@ func record(test string, res *pnode.Result) {
 		if res.ReplayExact {
 			cls = append(cls, "replay-exact-hrs")
 		}
+		if res.History.DBLoss > 0 {
+			cls = append(cls, "power-loss-model")
+		}
+		if res.DBWritesLost > 0 {
+			cls = append(cls, "unsynced-db-writes-lost")
+		}
 	}
 	lib.Case(test, lib.FP(res.History.Heights, res.History.Txs, res.History.Salted, res.History.AddValAt, res.History.ParamAt, res.History.RetainAt, res.History.RetainDelta,
 		res.CrashIndex, res.Crashes, res.CutAt-res.HeadSynced), nontrivial, cls...)
